@@ -12,6 +12,14 @@ type BoundsResult struct {
 	OK      bool
 	Trivial bool   // constant bound
 	Why     string // what was proved, or which fact is missing
+	Inv     string // named invariant the proof relied on, if any
+}
+
+func (fa *Facts) noteAxiom(name string) {
+	if fa.UsedAxioms == nil {
+		fa.UsedAxioms = map[string]bool{}
+	}
+	fa.UsedAxioms[name] = true
 }
 
 // seqLen returns a linear form for the length of x (constant for arrays).
@@ -69,6 +77,12 @@ func (fa *Facts) CheckIndex(e *ast.IndexExpr, st *State) BoundsResult {
 	if lo && hi {
 		return BoundsResult{OK: true, Trivial: idx.Term == "" && ln.Term == "", Why: fmt.Sprintf("0 <= %s < %s", StripPos(idx.String()), StripPos(ln.String()))}
 	}
+	if st2, name := fa.withAxiom(e.X, st); name != "" {
+		if st2.ProveLinLE(Lin{}, idx, 0) && st2.ProveLinLE(idx, ln, -1) {
+			fa.noteAxiom(name)
+			return BoundsResult{OK: true, Inv: name, Why: fmt.Sprintf("0 <= %s < %s given invariant %s", StripPos(idx.String()), StripPos(ln.String()), name)}
+		}
+	}
 	miss := ""
 	if !lo {
 		miss = fmt.Sprintf("0 <= %s", StripPos(idx.String()))
@@ -124,6 +138,12 @@ func (fa *Facts) CheckSlice(e *ast.SliceExpr, st *State) BoundsResult {
 		return BoundsResult{OK: true, Trivial: lo.Term == "" && hi.Term == "" && ln.Term == "",
 			Why: fmt.Sprintf("0 <= %s <= %s <= %s", StripPos(lo.String()), StripPos(hi.String()), StripPos(ln.String()))}
 	}
+	if st2, name := fa.withAxiom(e.X, st); name != "" {
+		if st2.ProveLinLE(Lin{}, lo, 0) && st2.ProveLinLE(lo, hi, 0) && (e.High == nil || st2.ProveLinLE(hi, ln, 0)) {
+			fa.noteAxiom(name)
+			return BoundsResult{OK: true, Inv: name, Why: fmt.Sprintf("0 <= %s <= %s <= %s given invariant %s", StripPos(lo.String()), StripPos(hi.String()), StripPos(ln.String()), name)}
+		}
+	}
 	s := "not established on every path: "
 	for i, m := range miss {
 		if i > 0 {
@@ -160,4 +180,28 @@ func (fa *Facts) BoolKnown(e ast.Expr, st *State) (val, known bool) {
 	}
 	bf, ok := st.bools[s]
 	return bf.val, ok
+}
+
+// ProveMinLen reports whether len(e) >= k holds in st (directly, through a
+// constant, or through a named invariant).
+func (fa *Facts) ProveMinLen(e ast.Expr, st *State, k int) (bool, string) {
+	if st == nil {
+		return true, "unreachable"
+	}
+	e = ast.Unparen(e)
+	if fa.minLen(e, st) >= k {
+		return true, "constant or invariant length"
+	}
+	ln, ok, _ := fa.seqLen(e)
+	if !ok {
+		return false, ""
+	}
+	if st.ProveLinLE(Lin{Off: k}, ln, 0) {
+		return true, fmt.Sprintf("%d <= %s", k, StripPos(ln.String()))
+	}
+	if st2, name := fa.withAxiom(e, st); name != "" && st2.ProveLinLE(Lin{Off: k}, ln, 0) {
+		fa.noteAxiom(name)
+		return true, "invariant " + name
+	}
+	return false, ""
 }
